@@ -155,10 +155,22 @@ def r2_break_suppression(w):
             l = t['args'][1]['p']['l'] if t['args'][1]['o'] in ('copy', 'move') else None
             defs = []
             src_local = l
-            for _ in range(4):
+            for _ in range(6):
                 ds = v.pv.defs.get(src_local, [])
                 if len(ds) == 1 and ds[0][1] == 'rv' and ds[0][4]['r'] == 'use' and ds[0][4]['op']['o'] in ('copy', 'move'):
                     src_local = ds[0][4]['op']['p']['l']
+                elif len(ds) == 1 and ds[0][1] == 'call' and _preserves_break_suppression(w, ds[0][4]):
+                    # a Context method that leaves break_suppressed alone (with_after_hash, with_mode..): the flag is that of its receiver
+                    recv = ds[0][4]['args'][0]
+                    nxt = None
+                    if recv['o'] in ('copy', 'move') and not recv['p']['proj']:
+                        nxt = recv['p']['l']
+                        rd = v.pv.defs.get(nxt, [])
+                        if len(rd) == 1 and rd[0][1] == 'rv' and rd[0][4]['r'] == 'ref' and not rd[0][4]['p']['proj']:
+                            nxt = rd[0][4]['p']['l']          # `&ctx`
+                    if nxt is None:
+                        break
+                    src_local = nxt
                 else:
                     break
             ok_true = ok_false = False
@@ -192,6 +204,47 @@ def r2_break_suppression(w):
         else:
             r.bad(cons, 'mixed_text|%s' % k, 'the line collector does not mark a line containing a %s child as mixed text: code on that line would not be break-suppressed' % k)
     return r
+
+
+def _preserves_break_suppression(w, t):
+    """the callee is a method of the printing Context that returns its receiver with other fields changed: no write to break_suppressed"""
+    from tyutil import name_projection
+    from prov import place_key
+    cb = w.bodies.get(resolved_id(t))
+    if cb is None or cb.crate is not w.core or 'context::' not in cb.short or not cb.locals[0]['ty']['s'].endswith('context::Context') or not t['args']:
+        return False
+    if not cb.locals[1]['ty']['s'].endswith('context::Context'):
+        return False
+    for blk in cb.blocks:
+        if blk['cleanup']:
+            continue
+        for st in blk['stmts']:
+            if st['s'] != 'assign':
+                continue
+            l, pr = place_key(st['p'])
+            if not pr:
+                # whole assignment of a Context value: must be a copy of the receiver (or of a local that is)
+                if cb.locals[l]['ty']['s'].endswith('context::Context') and st['rv']['r'] == 'agg':
+                    # `Self { x, ..*self }`: the break_suppressed field must be copied from the receiver
+                    from tyutil import adt_lookup
+                    a = adt_lookup(w, cb.locals[l]['ty'].get('id'))
+                    names = [f['name'] for f in a['variants'][0]['fields']] if a else []
+                    if 'break_suppressed' not in names:
+                        return False
+                    op = st['rv']['ops'][names.index('break_suppressed')]
+                    if op['o'] not in ('copy', 'move'):
+                        return False
+                    steps, _ = name_projection(w, cb.locals[op['p']['l']]['ty'], place_key(op['p'])[1])
+                    if not (op['p']['l'] == 1 and steps and steps[-1].endswith('Context.break_suppressed')):
+                        return False
+                continue
+            steps, _ = name_projection(w, cb.locals[l]['ty'], pr)
+            if steps and steps[-1].endswith('Context.break_suppressed'):
+                return False
+        tt = blk['term']
+        if tt['t'] == 'call' and cb.locals[tt['dest']['l']]['ty']['s'].endswith('context::Context') and not _preserves_break_suppression(w, tt):
+            return False
+    return True
 
 
 def _mixed_guards(v, bi):
